@@ -86,7 +86,8 @@ def run(ctx):
     # ---- (b) random cases --------------------------------------------------------------------------------
     inv = gen_cat.inventory('en')
     cases = []
-    vocab = ['the', 'cat', 'sat', 'on', 'mat', '(', ',', 'Mr.', 'naïve', '彼', 'a b', '']
+    # spellings that differ only by case / accents / surrounding blanks are different words
+    vocab = ['the', 'cat', 'sat', 'on', 'mat', '(', ',', 'Mr.', 'naïve', '彼', 'a b', '', 'The', 'Cat', 'THE', 'mr.', 'naive', 'the ', 'Sat']
     for k in range(ctx.budget(400, 4000)):
         T = rng.randint(1, 8)
         cats = rng.sample(inv, T)
